@@ -41,7 +41,7 @@ def gen_tag(rng, n, tier):
         if rng.random() < 0.3:
             rel = rng.choice(["-rf", "--", "-", ";x", "$(y)", "a b"]) + rel
         ws = rng.choice(["", " ", "\n", " \t\n", "　", "\x1f", "\x85"])
-        stdout = rng.choice([ws, ws + rng.choice(["out", "two words", "l1\nl2", "é"]) + rng.choice(["", "\n", " \n\n", " "])])
+        stdout = rng.choice([ws, ws + rng.choice(["out", "two words", "l1\nl2", "é", "c1\rc2", "d1\r\nd2", "\x0bv\x0c"]) + rng.choice(["", "\n", " \n\n", " "])])
         yield {"args": args, "ctx": ctx, "rel": rel, "stdout": stdout,
                "stderr": rng.choice(["", "warning: x\n", "ERR"]), "exit": rng.choice([0, 0, 0, 1, 3])}
 
@@ -164,8 +164,12 @@ def gen_cli(rng, n, tier):
                 nm = rng.choice(["-rf", "--x", ";x", "$(y)", "a b", "*"]) + nm
             names.append(rng.choice(["", "sub/", "sub/deep er/"]) + nm)
         roots = ["r1"] if rng.random() < 0.6 else ["r1", "r 2"]
-        yield {"args": args, "files": sorted(set(names)), "roots": roots, "with_ctx": rng.random() < 0.4,
-               "stdout": rng.choice([" out \n", "name\n", "x"]), "stderr": rng.choice(["", "E!"])}
+        args2 = None
+        if rng.random() < 0.4:
+            # the same tag a second time in the template, with its own arguments (each occurrence is its own invocation)
+            args2 = [a for a in (gen_arg(rng) for _ in range(rng.choice([0, 1, 2]))) if not a.endswith("\\")]
+        yield {"args": args, "args2": args2, "files": sorted(set(names)), "roots": roots, "with_ctx": args2 is None and rng.random() < 0.4,
+               "stdout": rng.choice([" out \n", "name\n", "x", "a\rb", "\ra\rb\r\n"]), "stderr": rng.choice(["", "E!"])}
 
 
 def impl_cli(case):
@@ -178,6 +182,8 @@ def impl_cli(case):
         call = "%probe(" + ", ".join(esc_string(a) for a in case["args"]) + ")"
         if case["with_ctx"]:
             call += "{%Name()}"
+        if case.get("args2") is not None:
+            call += "_%probe(" + ", ".join(esc_string(a) for a in case["args2"]) + ")"
         args = ["-ah", "probe=" + PROBE, "--dry-run", "-r", "-ih", "-p", "%Dir()/pre" + call + "post-%Name()"] + [str(root / r) for r in case["roots"]]
         env = {"PROBE_STDOUT": case["stdout"], "PROBE_STDERR": case["stderr"], "PROBE_EXIT": "0"}
         (out, err, rc), records = _with_probe(env, lambda: common.run_cli(args))
@@ -200,13 +206,18 @@ def oracle_cli(case, obs):
                 expected.append({"argv": list(case["args"]), "cwd": r, "stdin": f.rsplit("/", 1)[-1]})
             else:
                 expected.append({"argv": list(case["args"]) + [f], "cwd": r, "stdin": CANARY.decode()})
+            if case.get("args2") is not None:
+                expected.append({"argv": list(case["args2"]) + [f], "cwd": r, "stdin": CANARY.decode()})
     expected.sort(key=lambda r: (r["cwd"], r["argv"], r["stdin"]))
     got = obs["records"]
     if not case["with_ctx"]:
         got = [{**g, "stdin": CANARY.decode()} for g in got]  # inherited stdin: content is not specified
+
     if got != expected:
         return f"invocations {got[:2]!r} … differ from expected {expected[:2]!r} …"
     value = case["stdout"].strip()
+    if case.get("args2") is not None:
+        value = value + "_" + value
     for d in obs["dests"]:
         if not d.rsplit("/", 1)[-1].startswith("pre" + value + "post-"):
             return f"generated name {d!r} is not pre+{value!r}+post (stderr leaked or output altered)"
